@@ -73,6 +73,8 @@ def _pr(p):
         return f'.{p[1]}'
     if p[0] == 'down':
         return f'@{p[1]}'
+    if p[0] == 'range':
+        return f'[{p[1]}..{p[2]}]'
     return f'[{p[0]}]'
 
 
@@ -107,6 +109,10 @@ class Const:
 
 
 UNIT = Agg('()', None, (), 'tuple')
+
+
+def bytes_to_agg(b):
+    return Agg('[]', None, [z3.BitVecVal(x, 8) for x in b.b], 'array')
 
 
 def vrepr(v):
@@ -293,6 +299,14 @@ class Exec:
                 v = self.read_loc(p, frame, key, cur)
                 ptr = self.as_ptr(v)
                 key, cur = ptr.key, list(ptr.projs)
+            elif pr[0] == 'index':
+                iv = self.read_loc(p, frame, ('L', frame.id, pr[1]), ())
+                c = None
+                if isinstance(iv, z3.ExprRef):
+                    sv = z3.simplify(iv)
+                    if z3.is_bv_value(sv):
+                        c = sv.as_long()
+                cur.append(('index', pr[1], c))
             else:
                 cur.append(pr)
         return key, tuple(cur)
@@ -370,9 +384,29 @@ class Exec:
             if isinstance(v, Sym):
                 o = v.get_ov(('f', pr[1]))
                 return o if o is not None else self.fresh(f'{v.name}[{pr[1]}]', '')
+        if k == 'range':
+            if isinstance(v, Bytes):
+                v = bytes_to_agg(v)
+            if isinstance(v, Agg) and v.kind == 'array' and pr[2] <= len(v.fields):
+                return Agg('[]', None, v.fields[pr[1]:pr[2]], 'array')
+            return Sym(f'{vname(v)}[{pr[1]}..{pr[2]}]', '')
         if k == 'index':
+            iv = pr[2] if len(pr) > 2 else None
+            if isinstance(v, Bytes):
+                v = bytes_to_agg(v)
+            if iv is not None and isinstance(v, Agg) and v.kind == 'array' and iv < len(v.fields):
+                return v.fields[iv]
             return Sym(f'{vname(v)}[?]', '')
         if k == 'subslice':
+            m = re.fullmatch(r'(\d+)(\.\.|:)(-?)(\d+)', pr[1].replace(' ', ''))
+            if isinstance(v, Bytes):
+                v = bytes_to_agg(v)
+            if m and isinstance(v, Agg) and v.kind == 'array':
+                a, b = int(m.group(1)), int(m.group(4))
+                hi = len(v.fields) - b if m.group(3) == '-' or m.group(2) == ':' and m.group(3) == '-' else b
+                if m.group(2) == ':' and m.group(3) != '-':
+                    hi = b
+                return Agg('[]', None, v.fields[a:hi], 'array')
             return Sym(f'{vname(v)}[{pr[1]}]', '')
         raise Unmodelled(f'projection {pr} of {vrepr(v)}')
 
@@ -411,6 +445,22 @@ class Exec:
         if k == 'cindex' and isinstance(v, Agg):
             f = list(v.fields)
             f[pr[1]] = self.update(f[pr[1]], rest, val)
+            return Agg(v.name, v.variant, f, v.kind, v.fnames)
+        if k == 'index' and isinstance(v, Agg) and len(pr) > 2 and pr[2] is not None and pr[2] < len(v.fields):
+            f = list(v.fields)
+            f[pr[2]] = self.update(f[pr[2]], rest, val)
+            return Agg(v.name, v.variant, f, v.kind, v.fnames)
+        if k == 'range' and isinstance(v, Agg) and v.kind == 'array':
+            f = list(v.fields)
+            if not rest:
+                nv = bytes_to_agg(val) if isinstance(val, Bytes) else val
+                if isinstance(nv, Agg) and len(nv.fields) == pr[2] - pr[1]:
+                    f[pr[1]:pr[2]] = list(nv.fields)
+                    return Agg(v.name, v.variant, f, v.kind, v.fnames)
+                raise Unmodelled('range update with a value of different shape')
+            sub = Agg('[]', None, f[pr[1]:pr[2]], 'array')
+            sub = self.update(sub, rest, val)
+            f[pr[1]:pr[2]] = list(sub.fields)
             return Agg(v.name, v.variant, f, v.kind, v.fnames)
         raise Unmodelled(f'update {pr} of {vrepr(v)}')
 
@@ -490,6 +540,20 @@ class Exec:
         m = re.fullmatch(r"'(.)'", t)
         if m:
             return z3.BitVecVal(ord(m.group(1)), 32)
+        # constants / statics / promoteds with a MIR body: evaluate the body
+        cf = self.find_const_fn(t)
+        if cf is not None and frame is not None and getattr(self, '_const_depth', 0) < 4:
+            out = []
+            self._const_depth = getattr(self, '_const_depth', 0) + 1
+            try:
+                saved = self.results
+                self.results = []
+                self.run_fn(cf, [], self._cur_path, frame.depth + 1, lambda q, ret: out.append(ret), 'c' + str(next(self.frames)))
+                self.results = saved
+            finally:
+                self._const_depth -= 1
+            if len(out) == 1 and out[0] is not None:
+                return out[0]
         # simple named constants defined in this crate's MIR
         if '::' in t and not t.startswith('{'):
             hits = []
@@ -509,7 +573,28 @@ class Exec:
     def operand(self, p, frame, op):
         if op[0] in ('copy', 'move'):
             return self.read_place(p, frame, op[1])
+        self._cur_path = p
         return self.const(op[1], frame)
+
+    def find_const_fn(self, t):
+        cfs = self.prog.const_fns
+        if not cfs or t.startswith(('"', 'b"', '{')) or re.match(r'^-?\d', t):
+            return None
+        key = ('constfn', t)
+        if key in self._resolve_cache:
+            return self._resolve_cache[key]
+        res = None
+        tt = re.sub(r'::<[^<>]*>', '', t)
+        segs = tt.split('::')
+        for nseg in range(min(5, len(segs)), 0, -1):
+            tail = '::'.join(segs[-nseg:])
+            hits = [f for k2, f in cfs.items() if k2 == tt or k2 == tail or k2.endswith('::' + tail)]
+            if hits:
+                if len(hits) == 1:
+                    res = hits[0]
+                break
+        self._resolve_cache[key] = res
+        return res
 
     def operand_type(self, frame, op):
         if op[0] in ('copy', 'move'):
